@@ -15,7 +15,9 @@ RULE = ('(1) opacity: lexeme = opener + body + terminator for single-quoted '
         '/* */ and -- comments (incl. hints); body = char soup over all code '
         'points minus the region terminator (minus backslash for quote-'
         'delimited regions, minus CR/LF for --); x left/right contexts of '
-        'delimiters and whitespace that cannot extend the lexeme; oracle: '
+        'delimiters and whitespace that cannot extend the lexeme, in 20 % '
+        'of the cases behind an unclosed opener of another region kind or '
+        'closed regions of every kind; oracle: '
         'exactly one token starts at len(L), its value is the lexeme and '
         'its type the region type. (2) EVERY single-word entry of the nine '
         'keyword dictionaries x {upper, lower, capitalised, random mixed} x '
